@@ -193,6 +193,14 @@ def run(pid, tier, fn, level="other"):
         fn(chk)
         return chk.finish()
     except AnalysisIncomplete as e:
+        if chk.violations:
+            # what could be analysed already shows a violation: that is a verdict; the rest is reported as a note
+            chk.note("analysis stopped early: %s" % str(e)[:300])
+            print("(analysis stopped early: %s)" % str(e)[:200])
+            try:
+                return chk.finish()
+            except AnalysisIncomplete:
+                pass
         print("ANALYSIS-INCOMPLETE property=%s: %s" % (pid, e))
         print("(no verdict: the check could not analyse this tree; exit 2)")
         return 2
